@@ -272,6 +272,22 @@ func registerMoreIntrinsics() {
 		x.execBuiltin(st, fr, "delete", []Value{lruMap(x, st, a[0]), a[1]}, nil)
 		return nil, 1
 	}
+	intrinsics["("+"*"+lru+"LRUExpireCache).Keys"] = func(x *Exec, st *State, fr *Frame, fn *ssa.Function, a []Value) (Value, int) {
+		mo := lruObj(x, st, a[0])
+		arr := &ArrayV{e: make([]Value, len(mo.entries))}
+		for k, e := range mo.entries {
+			arr.e[k] = e.key
+		}
+		if len(arr.e) == 0 {
+			return ret1(SliceV{})
+		}
+		p := st.alloc(arr)
+		return ret1(SliceV{base: p, len: len(arr.e), cap: len(arr.e)})
+	}
+	intrinsics["(*golang.org/x/time/rate.Limiter).Wait"] = func(x *Exec, st *State, fr *Frame, fn *ssa.Function, a []Value) (Value, int) {
+		return ret1(IfaceV{})
+	}
+	redirects["(*sync.Cond).Wait"] = "M_cond_Wait"
 	intrinsics[zz+"CacheExpiry"] = func(x *Exec, st *State, fr *Frame, fn *ssa.Function, a []Value) (Value, int) {
 		if a[0].(*Term).IsTrue() {
 			st.ghost["$cacheExpiry"] = x.tc.True
